@@ -1,3 +1,5 @@
+import json
+
 from circuits import Component, handler
 from circuits.core import Value
 from circuits.net.events import write
@@ -24,13 +26,22 @@ class Protocol(Component):
             self.__buffer += data
 
         packets = self.__buffer.split(DELIMITER)
-        self.__buffer = b''
+        # the last piece is the beginning of a packet whose remainder has not been
+        # read yet - unless it is a complete packet that was sent without delimiter
+        self.__buffer = packets.pop()
+        try:
+            json.loads(self.__buffer)
+        except (ValueError, RecursionError):
+            pass
+        else:
+            packets.append(self.__buffer)
+            self.__buffer = b''
 
         for packet in packets:
             try:
                 self.__process_packet(packet)
             except ValueError:
-                self.__buffer = packet
+                pass  # undecodable bytes
 
     @handler(channel='node_result', priority=100)
     def result_handler(self, event, *args, **kwargs):
